@@ -187,6 +187,42 @@ def run_driver(name, args, timeout, extra_env=None):
 # judging
 
 
+# When the judge cannot be built with the facts regenerated from the changed tree (a fact could not be
+# extracted any more, or a model that is parametrised by it does not type-check), the models are still
+# wanted for the search for a failing input: they are then built in a private copy with the Gen/*.v files
+# of the last commit of /verif (the facts of the tree the development was proved against).
+JUDGE_COQ = [None]
+
+
+def fallback_judge(prop, workdir):
+    priv = os.path.join(workdir, "coqfallback")
+    shutil.rmtree(priv, ignore_errors=True)
+    files = []
+    for d, _, fs in os.walk(COQ):
+        for f in fs:
+            if f.endswith(".v"):
+                rel = os.path.relpath(os.path.join(d, f), COQ)
+                if rel.startswith("."):
+                    continue
+                files.append(rel)
+                os.makedirs(os.path.join(priv, os.path.dirname(rel)), exist_ok=True)
+                shutil.copyfile(os.path.join(COQ, rel), os.path.join(priv, rel))
+    for rel in files:
+        if rel.startswith("Gen/"):
+            rc, out = sh(["git", "-C", ROOT, "show", "HEAD:coq/" + rel], timeout=60)
+            if rc == 0 and out.strip():
+                with open(os.path.join(priv, rel), "w") as f:
+                    f.write(out)
+    files.sort()
+    with open(os.path.join(priv, "_CoqProject"), "w") as f:
+        f.write("-Q . Verif\n-arg -w -arg -notation-overridden,-deprecated-hint-without-locality,-deprecated-instance-without-locality\n" + "\n".join(files) + "\n")
+    rc, out = sh(["coq_makefile", "-f", "_CoqProject", "-o", "Makefile"], cwd=priv, timeout=120)
+    if rc != 0:
+        return None
+    rc, out = sh(["make", "-j%d" % NPROC, prop.JUDGE.replace(".", "/") + ".vo"], cwd=priv, timeout=1800)
+    return priv if rc == 0 else None
+
+
 def load_cases(path):
     cases, summary = [], {}
     with open(path) as f:
@@ -246,7 +282,7 @@ def judge_cases(prop, cases, workdir, shard_size=400, timeout=900):
     while pending or running:
         while pending and len(running) < max(1, NPROC // 2):
             k, vpath = pending.pop(0)
-            p = subprocess.Popen(["coqc", "-Q", COQ, "Verif", "-w", "-notation-overridden",
+            p = subprocess.Popen(["coqc", "-Q", JUDGE_COQ[0] or COQ, "Verif", "-w", "-notation-overridden",
                                   "-o", vpath + "o", vpath], cwd=workdir,
                                  stdout=subprocess.PIPE, stderr=subprocess.STDOUT, start_new_session=True)
             running.append((k, p))
@@ -421,6 +457,8 @@ def run_and_judge(prop, tier, seed, workdir, phase, extra_args=None):
     tmo = getattr(prop, "DRIVER_TIMEOUT", {}).get(tier, 600 if tier == "quick" else 7200)
     if phase == "search":
         tmo *= 4
+    if phase == "recheck":
+        tmo = 60
     rc, out = run_driver(prop.DRIVER, args, tmo, getattr(prop, "DRIVER_ENV", None))
     cases, summary = ([], {})
     if os.path.exists(out_path):
@@ -497,6 +535,7 @@ def do_check(pid, tier, replay):
         pinfo = check_properties_file(prop, workdir)
         forbidden = scan_forbidden(dep_closure([prop.COQ_PROPS, prop.JUDGE.replace('.', '/') + '.v']))
         proof_broken = None
+        judge_fb = None
         if pinfo["rc"] != 0:
             proof_broken = "theorem file %s no longer compiles: %s" % (prop.COQ_PROPS, (pinfo["err"] or "")[-1500:])
         elif forbidden:
@@ -522,9 +561,17 @@ def do_check(pid, tier, replay):
                                                        prop.DRIVER, REPO, out_b[-3000:])},
                        summary={}, driver_rc=0, driver_out="")
         elif not judge_ok:
-            res = dict(cases=[], uniq=[], verdict={"bad_agree": [], "bad_spec": [], "nontrivial": 0,
-                                                   "error": "judge module does not build:\n" + out_make[-3000:]},
-                       summary={}, driver_rc=0, driver_out="")
+            fb = fallback_judge(prop, workdir)
+            if fb:
+                # models built with the committed facts: good enough to look for a failing input
+                JUDGE_COQ[0] = fb
+                judge_fb = "judge module does not build with the facts regenerated from this tree " \
+                           "(judged with the committed facts instead):\n" + out_make[-1500:]
+                res = run_and_judge(prop, tier, seed, workdir, "main")
+            else:
+                res = dict(cases=[], uniq=[], verdict={"bad_agree": [], "bad_spec": [], "nontrivial": 0,
+                                                       "error": "judge module does not build:\n" + out_make[-3000:]},
+                           summary={}, driver_rc=0, driver_out="")
         elif replay:
             rp = json.load(open(replay))
             extra = rp.get("driver_replay_args")
@@ -547,6 +594,8 @@ def do_check(pid, tier, replay):
 
         kfs = known_findings(pid)
         corr_broken = None
+        if judge_fb and not proof_broken:
+            proof_broken = judge_fb
         if v["error"]:
             corr_broken = v["error"]
         if res["driver_rc"] != 0:
@@ -573,11 +622,12 @@ def do_check(pid, tier, replay):
         # the case runs alone: a small number of failing cases is re-run alone three times each; a case that is
         # clean all three times is recorded as unstable and not reported. Deterministic failures are unaffected.
         unstable_spec = []
-        if unlisted and len(unlisted) <= 6 and not replay and judge_ok:
+        if unlisted and len(unlisted) <= 6 and not replay and (judge_ok or JUDGE_COQ[0]):
             keep = []
+            t_re = time.time()
             for i in unlisted:
                 rargs = uniq[i].get("replay")
-                if rargs is None or uniq[i].get("id") == "driver-crash":
+                if rargs is None or uniq[i].get("id") == "driver-crash" or time.time() - t_re > 150:
                     keep.append(i)
                     continue
                 clean = 0
@@ -605,11 +655,12 @@ def do_check(pid, tier, replay):
         # may come from the harness's own timing when the machine is overloaded: re-run such cases alone; the
         # ones that then agree are recorded as unstable and not counted. Spec failures are never filtered.
         unstable = []
-        if disagree and len(disagree) <= 12 and not replay and judge_ok:
+        if disagree and len(disagree) <= 12 and not replay and (judge_ok or JUDGE_COQ[0]):
             still = []
+            t_re = time.time()
             for i in disagree:
                 rargs = uniq[i].get("replay")
-                if not rargs:
+                if not rargs or time.time() - t_re > 150:
                     still.append(i)
                     continue
                 ok_runs = 0
@@ -626,7 +677,7 @@ def do_check(pid, tier, replay):
             # the property is no longer shown to hold: search for a failing input
             found = None
             searched = 0
-            if judge_ok and not corr_broken:
+            if (judge_ok or JUDGE_COQ[0]) and not corr_broken:
                 mult = getattr(prop, "SEARCH_ROUNDS", 3)
                 for r in range(mult):
                     sres = run_and_judge(prop, tier, seed + 7919 * (r + 1), workdir, "search")
